@@ -9,6 +9,7 @@ import (
 	"reflect"
 	"sync"
 	"sync/atomic"
+	"unicode/utf8"
 
 	"google.golang.org/grpc"
 	"google.golang.org/grpc/codes"
@@ -296,6 +297,16 @@ func (c *tunnelChannel) newStream(ctx context.Context, clientStreams, serverStre
 
 	str, md, err := c.allocateStream(ctx, clientStreams, serverStreams, methodName, opts)
 	if err != nil {
+		return nil, err
+	}
+	if !utf8.ValidString(methodName) {
+		err = status.Errorf(codes.Internal, "method name %q is not valid UTF-8 and cannot be sent over a tunnel", methodName)
+	} else {
+		err = validateMetadata(md)
+	}
+	if err != nil {
+		c.removeStream(str.streamID)
+		str.cancel()
 		return nil, err
 	}
 	verifYield("client.newStream.afterAlloc")
